@@ -1,10 +1,13 @@
 """Engine `crash` (C08): crash recovery of the chain database against specs/crash/Crash.tla.
-MC (exhaustive, cached): Crash.tla - the node's life as a sequence of atomic commits with up to two crashes anywhere: the
-integrity verification is "ok" on every disk a crash can leave, the script always finishes, the final disk equals the uncrashed one.
+MC (exhaustive, cached): Crash.tla - the node's life as a sequence of commits, each in bolt's two steps (data pages, then the meta
+page), with up to two crashes anywhere, also between and inside the two steps: the integrity verification is "ok" on every disk a
+crash can leave, the script always finishes, the final disk equals the uncrashed one.
 fault enumeration on the real node: the dbutil commit hook (build tag verif) copies the bolt file at EVERY commit boundary of a
 scripted life (creation, start-up, genesis, blocks, pool updates); every copy (quick: single crashes; thorough: also every commit
 boundary of the restarted run) is verified with CheckDatabase under a watchdog, restarted (visor.New + Init), given the remaining
-events, and compared with the uncrashed final state; TLC checks every plan record (CrashRecords) and that the recorded commit
+events, and compared with the uncrashed final state; crashes INSIDE a commit are materialised under the write-prefix model from
+the two neighbouring copies (file grown, a prefix of the changed data pages in ascending order, perhaps half a page, meta page
+unwritten or half written) and treated the same way; TLC checks every plan record (CrashRecords) and that the recorded commit
 sequence belongs to the specified life-cycle."""
 import collections
 import json
@@ -40,13 +43,16 @@ def run(res, prop, tier, seed, work, replay=None):
         res.mismatch("C08", sig, "crash plan %s (after commit %s; verify=%s): check=%s restart=%s final==uncrashed: %s"
                      % (r["plan"], r["after"], r["verify"], r["check"][:80], r["restart"][:120], r["final"] == r["expected"]), rp)
     all_recs = vlib.read_ndjson(recs)
-    plans = [r for r in all_recs if r["fn"] == "crash"]
+    plans = [r for r in all_recs if r["fn"] in ("crash", "torn")]
+    torn = [r for r in plans if r["fn"] == "torn"]
     per = collections.Counter("after:%s" % r["after"][-1] for r in plans)
     un = next(r for r in all_recs if r["fn"] == "uncrashed")
     res.coverage.update({
-        "evaluations": len(plans), "distinct_nontrivial": len({json.dumps([r["plan"], r["verify"], r["commits"]]) for r in plans}),
+        "evaluations": len(plans), "distinct_nontrivial": len({json.dumps([r["plan"], r["verify"], r["commits"], r.get("torn"), r["fn"]]) for r in plans}),
+        "crashes_inside_a_commit": len(torn), "torn_images_by_meta_page": dict(collections.Counter(r["torn"]["meta"] for r in torn)),
         "rule": "one crash plan per commit boundary of the scripted life (the database file copied by the commit hook right after the commit; also the created-but-empty file), "
-                "each executed with and without the integrity verification first; thorough: for every such image also every commit boundary of the restarted run (double crash); "
+                "each executed with and without the integrity verification first; plus, for every commit, the images of the write-prefix model (file before the commit grown to its new size, "
+                "the first 0 / 1 / half / all changed data pages written in ascending order, optionally half of the next page, meta page unwritten or half written); thorough: for every such image also every commit boundary of the restarted run (double crash); "
                 "all plans are distinct and non-trivial: verification must return ok within the watchdog, the restart must succeed and the final state must equal the uncrashed one",
         "exhaustive": True, "scripts": nscripts, "blocks_per_script": nb, "crash_depth": depth,
         "plans_by_last_commit_before_the_crash": dict(per), "uncrashed_commit_sequence": un["commits"],
